@@ -213,6 +213,37 @@ def l4_no_demand_inside_assert(tree, rep):
     rep.floor('definitions checked for reads inside assert', n, 2200)
 
 
+def l5_widened_flags_read_through_their_line(tree, rep):
+    """Where a form has a yes/no input X and a yes/no line X that can be true although the answer was "no" (the line adds what
+    the program detects by itself: foreign tax on a 1099 means Schedule 3 part I is needed whatever was answered), every
+    other definition consults the line.  Reading the raw answer instead misses exactly the detected cases: the amounts
+    carried to the other lines then disagree with each other within one solution."""
+    from .lineabs import E as _E
+    an = get_analysis(tree)
+    wid = {}
+    for d in an.defs.values():
+        nm = d.name
+        if nm in d.fr.input_map() and d.rec.cls.name == 'BooleanField':
+            atom = f'i:{d.fr.name}.{nm}'
+            for p in d.paths:
+                if p.outcome.kind == 'ret' and p.outcome.value is True and not any(
+                        isinstance(c, _E) and c.op == 'i' and f'i:{c.args[0]}' == atom and pol is True for c, pol, _a, _b in p.guards):
+                    wid[(d.year, atom)] = d
+    n = 0
+    for d in an.defs.values():
+        for r in d.reads():
+            w = wid.get((d.year, r.atom))
+            if w is None or w is d:
+                continue
+            n += 1
+            rep.ob('L5', f'{d.key}<-{r.atom}', False,
+                   f'{d.key} reads the answer {r.atom} although line {w.key} widens it (that line is true also when the program detects the situation by itself): '
+                   f'with the answer "no" and the situation detected, {d.key} behaves as if it did not exist while the lines that read {w.key} carry its amounts',
+                   f'{r.rel}:{getattr(r.node, "lineno", 0)}')
+    rep.ob('L5', 'widened-declarations-are-read-through-their-line', True)
+    rep.floor('widened yes/no declarations', len(wid), 4)
+
+
 def enclosing_scope(node):
     p = getattr(node, 'parent', None)
     while p is not None and not isinstance(p, (ast.FunctionDef, ast.Lambda, ast.ClassDef)):
